@@ -139,8 +139,11 @@ def run(ctx: Ctx) -> None:
     g = grid(ctx)
     ctx.extra["grid_size"] = len(g)
     if not ctx.thorough:
-        ctx.rng.shuffle(g)
-        g = g[:260]
+        # every quick run contains the late-finish histories (an abandoned stream whose application ends later must not prolong idleness)
+        must = [c for c in g if c["key"][0] in ("h2_rst_late_finish", "h1_reset_late_finish") and c["key"][4] == 1 and c["key"][2] == 1 + EPS and c["key"][3] is None]
+        rest = [c for c in g if c not in must]
+        ctx.rng.shuffle(rest)
+        g = must + rest[:240]
     ctx.exhaustive = ctx.thorough
     for c in g:
         ctx.count("canonical", c["key"][0])
